@@ -33,7 +33,9 @@ def calls_of(F):
 
 def is_hash_recv(callee, ga):
     s = callee + " " + ga
-    return ("hashbrown::" in s or "std::collections::hash::" in s) and HASH_ITER.search(callee.split("<")[0].split(" as ")[0]) is not None
+    hashy = "hashbrown::" in s or "std::collections::hash::" in s or "std::collections::HashMap" in s or "std::collections::HashSet" in s
+    # the method is the last path segment (`HashMap::<K, V, S>::iter`, `<&HashMap<..> as IntoIterator>::into_iter`)
+    return hashy and HASH_ITER.search("::" + callee.rsplit("::", 1)[-1]) is not None
 
 
 # ---- discharge predicates for hash iteration (semantic shapes on typed HIR) -------------------------------------------
